@@ -7,7 +7,7 @@ PID = "C05"
 MODULE = "Check.C05"
 VERDICT = "verdict_C05 [] []"
 CLASS_BITS = {32: "K_rff_ignores_imports", 64: "K_rff_fallback"}
-NCASES = (60, 2000)
+NCASES = (160, 2000)
 shrinkable = True
 RULE = ("generators W and W-chains; for every file: get_available_fixtures next to find_closest_definition and "
         "resolve_fixture_for_file for EVERY name known to the index (visible or not); non-trivial = some conftest/link "
